@@ -4,7 +4,7 @@
    Per node (legal position, consistent key, reached by a legal move or a pass while not in check, ply limit) and per verdict,
    the statement is decided on every run by the extracted monitor mon_nodes on the real engine's hook trace. *)
 From Coq Require Import NArith ZArith List Permutation.
-From JV Require Import Gen.Consts Model.Chess Model.Eval Model.TT Model.Search Model.SearchChess Model.Monitors Proofs.SearchBalance Proofs.SortProofs Proofs.SearchNodes.
+From JV Require Import Gen.Consts Model.Chess Model.Eval Model.TT Model.Search Model.SearchChess Model.Monitors Proofs.SearchBalance Proofs.SortProofs Proofs.SearchNodes Proofs.ZobristProofs Proofs.GenProofs Proofs.GenOk Proofs.KingsProofs Proofs.MakeGen.
 
 Theorem C06_fuel : forall pollp stop_at bypass g depth t rt ri,
   chess_search pollp stop_at bypass g depth t rt ri <> SFuel.
@@ -40,6 +40,15 @@ Theorem C06_verdict_no_legal_move : forall rec_n g depth nd inchk ms searched ta
   Forall (fun m => c_make g m = None) ms.
 Proof. intros. eapply nloop_no_legal. eassumption. Qed.
 
+(* consistency and stored key = recomputed key hold at every position reachable from a consistent root with a right key by accepted
+   generated moves that capture no king and by passes (reach_nk = the reachability relation of C06_nodes_reachable with the
+   no-king-capture side condition on each step; that condition is what "the side not to move is not in check" gives, and it is
+   evaluated per run by the judge on every generated move) *)
+Theorem C06_reachable_positions_consistent : forall g0 g, cons g0 -> keyok g0 -> reach_nk g0 g -> cons g /\ keyok g.
+Proof. exact reach_good. Qed.
+Theorem C06_reachable_positions_one_king_each : forall g0 g, cons g0 -> kings g0 -> reach_nk g0 g -> kings g.
+Proof. exact reach_kings. Qed.
+
 (* the per-node statement, as the monitor decides it for one trace (visible, not assumed) *)
 Definition C06_full : Prop := forall pollp stop_at bypass g depth t hist,
   Abs.wf g = true -> keyok_b g = true ->
@@ -52,3 +61,5 @@ Print Assumptions C06_fuel.
 Print Assumptions C06_sort.
 Print Assumptions C06_nodes_reachable.
 Print Assumptions C06_verdict_no_legal_move.
+Print Assumptions C06_reachable_positions_consistent.
+Print Assumptions C06_reachable_positions_one_king_each.
